@@ -1,6 +1,7 @@
 import Reduino.Driver.Util
 import Reduino.Fw.Buzzer
 import Reduino.Fw.Inputs
+import Reduino.Fw.InputsWrap
 import Reduino.Fw.Actuators
 /- Line protocol for the firmware-side models (tie S_c).  Floats are C `float` (Float32), `g<8 hex>`. -/
 namespace Reduino.Driver
@@ -63,6 +64,24 @@ def runUltra (echoes drifts : List Nat) (prog : List String) : String :=
       | ["sleep", n] => go u (now + n.toNat!) es ds rest acc
       | _ => ("bad-op" :: acc).reverse
   "|".intercalate (go Ultra.init 0 echoes drifts prog [])
+
+/-- `fwultraW|W|start|echoes|drifts|prog`: the helper on a counter of `W` values that reads `start` at power-up
+    (`Ultra.attemptsW`, related to `Ultra.measure` by `Props.C15.ultra_measure_across_wrap`); event times are shown relative to `start` -/
+def runUltraW (W start : Nat) (echoes drifts : List Nat) (prog : List String) : String :=
+  let rel : UEv → UEv
+    | .pulse t => .pulse (t - start)
+    | .stamp t => .stamp (t - start)
+    | e => e
+  let rec go (u : Ultra Float32) (now : Nat) (es ds : List Nat) : List String → List String → List String
+    | [], acc => acc.reverse
+    | o :: rest, acc =>
+      match words o with
+      | ["call"] =>
+        let r := Ultra.attemptsW W Ultra.maxAttempts u now es ds []
+        go r.st r.now r.echoes r.drifts rest (s!"{",".intercalate (r.evs.map (showUEv ∘ rel))} result={showF32 r.result}" :: acc)
+      | ["sleep", n] => go u (now + n.toNat!) es ds rest acc
+      | _ => ("bad-op" :: acc).reverse
+  "|".intercalate (go Ultra.init start echoes drifts prog [])
 
 def runButton (s0 : String) (sig : List Bool) : String :=
   let b : Button := if s0 == "-" then {} else Button.setupSample (s0 == "1")
@@ -154,6 +173,7 @@ def handleFw (fields : List String) : Option String :=
   match fields with
   | "fwbuzzer" :: ctor :: ops => some (runBuzzer (words ctor) ops)
   | ["fwultra", es, ds, prog] => some (runUltra (nats es) (nats ds) (prog.splitOn ";"))
+  | ["fwultraW", w, st, es, ds, prog] => some (runUltraW w.toNat! st.toNat! (nats es) (nats ds) (prog.splitOn ";"))
   | ["fwbutton", s0, sig] => some (runButton s0 ((words sig).map (· == "1")))
   | _ => none
 
